@@ -124,8 +124,8 @@ func variants(p *Prog) []variant {
 	for _, sc := range declared(p) {
 		for _, n := range sc.names {
 			where := "top level"
-			if sc.scope < len(p.Defs) {
-				where = "method " + p.Defs[sc.scope].Name
+			if bs := p.bodies(); sc.scope < len(bs) {
+				where = "method " + bs[sc.scope].Name
 			}
 			vs = append(vs, variant{edit: "rename-local", desc: fmt.Sprintf("local `%s` of %s renamed to `%s_r9`", n, where, n), prog: rename(p, sc.scope, n, n+"_r9")})
 		}
@@ -138,7 +138,7 @@ func variants(p *Prog) []variant {
 	}
 	if len(p.Defs) >= 2 && len(p.Defs) <= 4 {
 		for _, perm := range permutations(len(p.Defs))[1:] {
-			q := &Prog{Name: p.Name, Main: p.Main}
+			q := &Prog{Name: p.Name, Classes: p.Classes, Main: p.Main}
 			var names []string
 			for _, i := range perm {
 				q.Defs = append(q.Defs, p.Defs[i])
@@ -253,7 +253,7 @@ func main() {
 		Prop:  "C12",
 		Level: "exploration",
 		Rule: "base programs: every combination of 22 leaf method shapes (typed returns with `return` in every position, locals, loops, closures, narrowing, declared throws, catch/finally, defer), 5 caller shapes " +
-			"and top-level shapes arranged as 1–4 methods (thorough: all caller×leaf pairs); for each accepted base, every single application of: an unused local (`u9 := 1`, `u9 := -> 1`, `u9 := |q9: Int| -> q9`) " +
+			"and top-level shapes arranged as 1–4 methods (thorough: all caller×leaf pairs), plus generator methods (`def *g`, yields before/after other statements, in loops, if and do/finally, consumed by for-in), async methods (await, await_sync), classes with init / instance / generator / async methods and a module method; for each accepted base, every single application of: an unused local (`u9 := 1`, `u9 := -> 1`, `u9 := |q9: Int| -> q9`) " +
 			"before every statement of every body; renaming of every declared local/parameter; parentheses around every expression node; every non-identity permutation of the method definitions; " +
 			"oracle: same verdict, stdout and uncaught error as the base; every variant is a distinct program (non-trivial)",
 		Assume:      []string{"method bodies compiled one at a time (MethodCheckConcurrencyLimit=1)", "quick tier observes order-independent variants batched in one program with disjoint names and re-checks every difference on a program of its own; the thorough tier observes every variant on its own"},
